@@ -686,6 +686,92 @@ func judgeByteSource(src []byte) (map[int]string, string) {
 	return problems, ""
 }
 
+// c12PathStrings: string literals whose value is an import path the File knows in some role (dot-imported, aliased,
+// blank-imported, the File's own path, "C", a hinted name): a literal is a literal whatever its text means elsewhere.
+func c12PathStrings(r *mon.Run) {
+	c := mon.Case{Gen: "path-strings", Seed: r.Seed}
+	for _, noFormat := range []bool{false, true} {
+		f := jen.NewFilePathName("my/local/pkg", "p")
+		f.NoFormat = noFormat
+		f.ImportAlias("strings", ".")
+		f.ImportAlias("a.b/dotted", ".")
+		f.ImportAlias("c.d/aliased", "al")
+		f.ImportName("e.f/named", "nm")
+		f.Anon("g.h/blank")
+		f.CgoPreamble("#include <x.h>")
+		strs := []string{"strings", "a.b/dotted", "c.d/aliased", "e.f/named", "g.h/blank", "my/local/pkg", "C", "fmt", ".", "_", "al", "nm", "p"}
+		f.Var().Id("U").Op("=").Index().Interface().Values(jen.Qual("strings", "ToUpper"), jen.Qual("a.b/dotted", "D"), jen.Qual("c.d/aliased", "A"), jen.Qual("e.f/named", "N"), jen.Qual("my/local/pkg", "L"), jen.Qual("fmt", "Sprint"))
+		items := make([]jen.Code, len(strs))
+		d := jen.Dict{}
+		for i, s := range strs {
+			s := s
+			if i%2 == 0 {
+				items[i] = jen.Lit(s)
+			} else {
+				items[i] = jen.LitFunc(func() interface{} { return s })
+			}
+			d[jen.Lit(s)] = jen.Lit(s)
+		}
+		f.Var().Id("L").Op("=").Index().String().Values(items...)
+		f.Var().Id("M").Op("=").Map(jen.String()).String().Values(d)
+		src, fail := renderFile(f)
+		if fail != "" {
+			r.Violate("string-render-failure", c, "literals whose text is an import path of the File: %s", fail)
+			continue
+		}
+		af, err := parser.ParseFile(token.NewFileSet(), "o.go", src, parser.SkipObjectResolution)
+		if err != nil {
+			r.Violate("string-token-stream", c, "literals whose text is an import path of the File: output does not parse: %v", err)
+			continue
+		}
+		var list []string
+		pairs := map[string]string{}
+		ast.Inspect(af, func(n ast.Node) bool {
+			vs, ok := n.(*ast.ValueSpec)
+			if !ok || len(vs.Values) != 1 {
+				return true
+			}
+			cl, ok := vs.Values[0].(*ast.CompositeLit)
+			if !ok {
+				return true
+			}
+			for _, el := range cl.Elts {
+				switch vs.Names[0].Name {
+				case "L":
+					if bl, ok := el.(*ast.BasicLit); ok && bl.Kind == token.STRING {
+						v, _ := strconv.Unquote(bl.Value)
+						list = append(list, v)
+					} else {
+						list = append(list, "<not a string literal>")
+					}
+				case "M":
+					if kv, ok := el.(*ast.KeyValueExpr); ok {
+						kl, _ := kv.Key.(*ast.BasicLit)
+						vl, _ := kv.Value.(*ast.BasicLit)
+						if kl != nil && vl != nil {
+							k, _ := strconv.Unquote(kl.Value)
+							v, _ := strconv.Unquote(vl.Value)
+							pairs[k] = v
+						}
+					}
+				}
+			}
+			return true
+		})
+		if strings.Join(list, "|") != strings.Join(strs, "|") {
+			r.Violate("string-literal", c, "Lit(s) for strings that are import paths / names of the File (NoFormat=%v): the list renders %q, want %q", noFormat, list, strs)
+		}
+		for _, s := range strs {
+			if pairs[s] != s || len(pairs) != len(strs) {
+				r.Violate("string-in-dict", c, "Lit(s) as Dict key and value for strings that are import paths of the File (NoFormat=%v): got %v", noFormat, pairs)
+				break
+			}
+		}
+		r.Count("strings_equal_to_import_paths_of_the_file", int64(len(strs)))
+	}
+	r.Eval("path-strings", true)
+}
+
 func runC12(r *mon.Run) {
 	r.SetRule("Lit(string): adversarial list, every single byte alone / between letters / on a second line, random strings from 1-4 character classes (letters, printable, LF, CR, NUL, invalid UTF-8, quotes, backquote, backslash, BOM, U+2028, multi-byte) and random raw bytes; rendered formatted, NoFormat and via LitFunc in batches of 500 (`var S<i> = <lit>`), judged on the go/scanner token stream; LitRune: every valid code point in thorough (boundaries + 12k BMP + 30k random in quick); LitByte: all 256. non-trivial = every value; distinct by value")
 	c12NegControls(r)
@@ -695,6 +781,7 @@ func runC12(r *mon.Run) {
 	rb, exh := c12RuneBatches(r)
 	mon.Parallel(len(rb), func(i int) { c12RuneBatch(r, rb, i) })
 	c12Bytes(r)
+	c12PathStrings(r)
 	r.Put("runes_exhaustive", exh)
 	r.Put("bytes_exhaustive", true)
 	r.Sample(map[string]interface{}{"strings": []string{strconv.Quote(adversarial[40]), strconv.Quote(sb[len(sb)-1][0]), strconv.Quote(sb[len(sb)-1][1])}})
@@ -714,6 +801,8 @@ func replayC12(r *mon.Run, c mon.Case) {
 		}
 	case "bytes":
 		c12Bytes(r)
+	case "path-strings":
+		c12PathStrings(r)
 	}
 }
 
